@@ -229,7 +229,11 @@ func leave(cc callCtx) {
 	c := ctl
 	for i := len(c.inside) - 1; i >= 0; i-- {
 		if c.inside[i].task == cc.task && c.inside[i].op == cc.op {
-			c.inside = append(c.inside[:i], c.inside[i+1:]...)
+			// manual shift (runtime.slicecopy is race-annotated even in norace functions)
+			for j := i; j+1 < len(c.inside); j++ {
+				c.inside[j] = c.inside[j+1]
+			}
+			c.inside = c.inside[:len(c.inside)-1]
 			break
 		}
 	}
@@ -260,7 +264,10 @@ func FileExists(name string) bool { return findFile(name) != nil }
 func RemoveFile(name string) bool {
 	for i, f := range files {
 		if f.name == name {
-			files = append(files[:i], files[i+1:]...)
+			for j := i; j+1 < len(files); j++ {
+				files[j] = files[j+1]
+			}
+			files = files[:len(files)-1]
 			return true
 		}
 	}
@@ -820,6 +827,11 @@ func (d *Dataset) transfer(cc callCtx, data interface{}, memspace, filespace *Da
 		limit = ctl.Tape.Choose(len(fsel)) // a strict prefix (possibly empty) reaches the disk
 	}
 	for i := 0; i < limit; i++ {
+		if i == limit/2 && limit >= 2 && cc.idx >= 0 {
+			// a non-thread-safe library: a transfer is not atomic with respect to other
+			// callers; with correct locking nobody can observe the half-done state
+			simrt.Yield("hdf5.transfer~mid")
+		}
 		fo, mo := fsel[i]*esz, msel[i]*bytesPerUser
 		if write {
 			copy(d.n.raw[fo:fo+esz], user[mo:mo+esz])
